@@ -34,6 +34,10 @@ let stack_case line =
       (match stack_size_applied (z_of_string page) (z_of_string psm) (rl_of rl) (flag = "1") (z_of_string req) with
        | Some r -> zs r
        | None -> "einval")
+  | ["tc"; page; psm; rl] ->      (* uv_thread_create = uv_thread_create_ex without UV_THREAD_HAS_STACK_SIZE *)
+      (match stack_size_applied (z_of_string page) (z_of_string psm) (rl_of rl) false (z_of_string "0") with
+       | Some r -> zs r
+       | None -> "einval")
   | ["ts"; page; psm; rl] ->
       zs (thread_stack_size (z_of_string page) (z_of_string psm) (rl_of rl))
   | _ -> failwith ("bad stack case " ^ line)
